@@ -125,6 +125,8 @@ class FilterScenario:
             if um in repo.modules:
                 inline |= {f.fq for f in repo.modules[um].functions.values()}
         self.ri = RepoInterp(repo, self.fi, inline=inline, call_hook=self.hook, may_fork=(), heap=True, max_depth=16)
+        self.ri.construct_instances = True  # helper objects the filter may be organised around (a dataclass holding the resolved path)
+        self.ri.dispatch_instances = True
         base_name = self.ri.on_name
         base_attr = self.ri.on_attr
         self.path_work: List[str] = []
